@@ -185,7 +185,10 @@ Inductive op :=
 
 (** [reentrant] = the defect switch: File.Mode/ModTime take nodeLock.RLock and then call
     GetNode, which takes it again *)
-Definition p_op (reentrant : bool) (t : nat) (o : op) : list pact :=
+(** [rmw] = the second switch (finding C20-2): SetMode/SetModTime read the node under the read
+    lock (GetNode), release it, and take the write lock only to store the node they built;
+    repaired, the write lock is held from reading the node to storing the new one *)
+Definition p_op_g (reentrant rmw : bool) (t : nat) (o : op) : list pact :=
   match o with
   | OWrite f sync =>
       p_lookup f ++
@@ -211,7 +214,7 @@ Definition p_op (reentrant : bool) (t : nat) (o : op) : list pact :=
        then [(ARLock (LNode f), Some PModTimeNodeRLock)] ++ p_getnode f ++ [(ARUnlock (LNode f), None)]
        else p_getnode f)
   | OChmod f | OTouch f =>
-      p_lookup f ++ p_getnode f ++
+      p_lookup f ++ (if rmw then p_getnode f else []) ++
       [(ALock (LNode f), Some PSetNodeDataLock); (AUnlock (LNode f), None)] ++ p_propagate f
   | OSize f => p_lookup f ++ [(ARLock (LNode f), Some PSizeNodeRLock); (ARUnlock (LNode f), None)]
   | OFlushFile f =>
@@ -238,6 +241,9 @@ Definition p_op (reentrant : bool) (t : nat) (o : op) : list pact :=
       [(ALock (LDir 0), Some PDirLocalUpdate); (AUnlock (LDir 0), None)] ++ p_dirgetnode
   end.
 
+Definition p_op (reentrant : bool) (t : nat) (o : op) : list pact := p_op_g reentrant false t o.
+Definition p_thread_g (reentrant rmw : bool) (t : nat) (ops : list op) : list pact :=
+  flat_map (p_op_g reentrant rmw t) ops.
 Definition p_thread (reentrant : bool) (t : nat) (ops : list op) : list pact :=
   flat_map (p_op reentrant t) ops.
 
@@ -316,16 +322,16 @@ Fixpoint indexed {A} (i : nat) (l : list A) : list (nat * A) :=
 Definition row := (nat * (list op * list point * bool))%type.
 (** the directory hooks are optional: when no directory point was observed at all the
     code under test does not have them, and they are dropped from the model side *)
-Definition traces_match (reentrant : bool) (rows : list row) : bool :=
+Definition traces_match (reentrant rmw : bool) (rows : list row) : bool :=
   let with_dir := existsb (fun r : row => let '(_, (_, obs, _)) := r in existsb is_dir_point obs) rows in
   forallb (fun r : row => let '(t, (ops, obs, done)) := r in
-                    let m0 := points_of (p_thread reentrant t ops) in
+                    let m0 := points_of (p_thread_g reentrant rmw t ops) in
                     let m := if with_dir then m0 else filter (fun p => negb (is_dir_point p)) m0 in
                     if done then eq_points obs m else prefix_points obs m) rows.
 
 Definition stuck_config (rows : list row) : state :=
   map (fun r : row => let '(t, (ops, obs, done)) := r in
-                if done then mkT [] false [] else advance (length obs) [] (p_thread true t ops)) rows.
+                if done then mkT [] false [] else advance (length obs) [] (p_thread_g true true t ops)) rows.
 
 Definition check_case (c : case) : verdict :=
   match c with
@@ -334,9 +340,10 @@ Definition check_case (c : case) : verdict :=
       let sizes_ok := Nat.eqb (length threads) (length traces) && Nat.eqb (length threads) (length dones) in
       if negb sizes_ok then VModelMismatch else
       if forallb (fun d => d) dones
-      then (if traces_match false rows || traces_match true rows then VOk else VModelMismatch)
+      then (if traces_match false false rows || traces_match false true rows ||
+               traces_match true true rows || traces_match true false rows then VOk else VModelMismatch)
       else (* hung: a deadlock of the real code *)
         let off_ok := forallb (fun r : row => let '(t, (ops, _, _)) := r in
                                         ok_thread (start (map fst (p_thread false t ops)))) rows in
-        if traces_match true rows && deadlocked (stuck_config rows) && off_ok then VKnown 1 else VSpecFail
+        if traces_match true true rows && deadlocked (stuck_config rows) && off_ok then VKnown 1 else VSpecFail
   end.
